@@ -64,8 +64,65 @@ def all_cases(tier):
                     yield (("OV", n, mask, level), pl, PATTERNS["quick"][0])
 
 
+    # WS: "loses nothing", differentially: a package whose __init__ re-exports through wildcards and assembled __all__ lists is loaded
+    # without stubs and with a stub for its __init__ (two placements): every runtime member must still be there, with the same kind/target
+    for variant in WS_VARIANTS:
+        for stub in WS_STUBS:
+            for pl in ("in-package", "stubs-package"):
+                yield (("WS", variant, stub), pl, PATTERNS["quick"][0])
+
+
 def shards(tier):
     return list(range(NSHARDS))
+
+
+WS_BASE = {"pkg/base.py": "__all__ = ['y']\ny = 1\n_z = 2\ndef not_exported(): ...\n", "pkg/other.py": "def o(): ...\nclass OC: ...\n"}
+WS_VARIANTS = {
+    "all-assembled": {"pkg/__init__.py": "from .mod import *\n", "pkg/mod.py": "from . import base\nfrom .base import *\n__all__ = ['x', *base.__all__]\nx = 1\n"},
+    "all-plus": {"pkg/__init__.py": "from .mod import *\nfrom .other import *\n", "pkg/mod.py": "from . import base\nfrom .base import *\n__all__ = ['x'] + base.__all__\nx = 1\n"},
+    "init-all": {"pkg/__init__.py": "from . import mod\nfrom .mod import *\n__all__ = ['top', *mod.__all__]\ntop = 0\n", "pkg/mod.py": "from .base import *\nfrom . import base\n__all__ = [*base.__all__, 'x']\nx = 1\n"},
+    "no-all": {"pkg/__init__.py": "from .mod import *\nfrom .base import *\n", "pkg/mod.py": "from .other import *\nx = 1\n"},
+    "chain": {"pkg/__init__.py": "from .mod import *\n", "pkg/mod.py": "from .base import *\nfrom .other import *\nx = 1\n"},
+}
+WS_STUBS = {"x-int": "x: int\n", "empty": "", "stub-only": "x: int\ndef only_in_stubs() -> int: ...\n", "wildcard": "from .mod import *\nx: int\n"}
+
+
+def _run_ws(griffe, acc, case):
+    (_tag, variant, stub), pl, _pat = case
+    files = {**WS_BASE, **WS_VARIANTS[variant]}
+    cd = {"case": [["WS", variant, stub], pl, list(_pat)], "files": files}
+
+    def view(with_stubs):
+        fs = dict(files)
+        opts = {}
+        if with_stubs:
+            if pl == "in-package":
+                fs["pkg/__init__.pyi"] = WS_STUBS[stub]
+            else:
+                fs["pkg-stubs/__init__.pyi"] = WS_STUBS[stub]
+                opts = {"find_stubs_package": True}
+        with sandbox.scratch_dir("c19w") as d:
+            sandbox.write_tree(d, fs)
+            loader = griffe.GriffeLoader(search_paths=[d], allow_inspection=False)
+            loader.load("pkg", **opts)
+            loader.resolve_aliases(implicit=True, external=False)
+            out = {}
+            for n, m in loader.modules_collection["pkg"].members.items():
+                out[n] = ("alias", m.target_path) if m.is_alias else (m.kind.value, None)
+            return out
+
+    try:
+        without, with_ = view(False), view(True)
+    except Exception as e:  # noqa: BLE001
+        acc.violation(f"raise/{type(e).__name__}/reexporting-package/{pl}", f"load raised {e!r}", cd, None, size=3)
+        return
+    acc.case({"case": cd["case"]}, outcome=pl + ":reexporting-package", nontrivial=True)
+    acc.observe(sorted(with_.items()))
+    for n, v in without.items():
+        if n not in with_:
+            acc.violation(f"merge/lost-runtime-member/{variant}/{pl}", f"pkg.{n} ({v[0]}) is a member without stubs but is gone when {('pkg/__init__.pyi' if pl == 'in-package' else 'pkg-stubs/__init__.pyi')} exists", cd, {"without": sorted(without), "with": sorted(with_)}, size=3)
+        elif with_[n] != v and not (v[0] == "attribute" and with_[n][0] == "attribute"):
+            acc.violation(f"merge/changed-runtime-member/{variant}/{pl}", f"pkg.{n}: {v} without stubs, {with_[n]} with", cd, None, size=3)
 
 
 def _ov_sources(n, mask, level):
@@ -298,6 +355,8 @@ def run_case(griffe, acc, case):
     sv, pl, pat = case
     if sv[0] == "OV":
         return _run_ov(griffe, acc, case)
+    if sv[0] == "WS":
+        return _run_ws(griffe, acc, case)
     files, top, modpath, opts = layout(case)
     results = {}
     cd = {"case": [list(sv), pl, list(pat)], "files": files}
